@@ -110,14 +110,14 @@ PLANS["C10"] = p_c10
 
 # ---------------------------------------------------------------- C11 duplex
 
-T_DUP = "+S:R,vu1rw;Z:U;+H:W||+u:vu1ro;+h:R,vu1ro;+t:T,D=dd;+d"
+T_DUP = "+S:R,vu1rw,vi1ro;Z:U;+H:W||+u:vu1ro,vu1ro;+h:R,vu1ro,vi1ro;+t:T,vu1ro,D=d;+d"   # every formatted response has two variables
 EV_DUP = "+u:R,+h:R,+t:T,+d:R"
 
 
 def duplex(tag, ring, shared, budget, prop, mon, extra=None, asan=False):
-    kw = dict(prop=prop, table=T_DUP, cap=16, shared=shared, name_alpha="+SZH", max_name=2, args_alpha="1", max_args=1, suffix_mask=7, lines=1, crlf=1,
-              refuse_read=1, refuse_write=1, codes_R="OK,DATA_OK,DATA_NEXT", codes_U="OK,LIST", codes_W="OK,HOLD", ecodes_R="OK,DATA_OK,DATA_NEXT,HEXIT_OK",
-              ecodes_T="OK,DATA_OK,DATA_NEXT", max_inv=1, tok=1, ev=EV_DUP, act="trigger,hold", trig_budget=budget, h_trigger=1, mon=mon)
+    kw = dict(prop=prop, table=T_DUP, cap=20, shared=shared, name_alpha="+SZH", max_name=2, args_alpha="1", max_args=1, suffix_mask=7, lines=1, crlf=1,
+              refuse_read=1, refuse_write=1, codes_R="OK,DATA_OK,DATA_NEXT", codes_U="OK,LIST", codes_W="OK,HOLD", ecodes_R="OK,DATA_OK,DATA_NEXT,HEXIT_OK,HEXIT_ERR,ERROR",
+              ecodes_T="OK,DATA_OK,DATA_NEXT,HEXIT_ERR,ERROR", max_inv=1, tok=1, ev=EV_DUP, act="trigger,hold", trig_budget=budget, h_trigger=1, mon=mon)
     if extra:
         kw.update(extra)
     return mcx(tag, ring=ring, asan=asan, **kw)
@@ -128,10 +128,12 @@ def c11_shards(tier, prop="C11", mon="C11"):
     sh = []
     for ring in ((1, 2) if quick else (1, 2, 3)):
         for shared in (0, 1):
-            sh.append(duplex("duplex-r%d-sh%d" % (ring, shared), ring, shared, 3 if quick else 4, prop, mon))
+            # one shard per request form of the single command line (run -> command list, read -> multi-unit response, write -> hold): a partition of the space
+            for sm, nm in ((1, "run"), (2, "read"), (4, "write")):
+                sh.append(duplex("duplex-r%d-sh%d-%s" % (ring, shared, nm), ring, shared, 3 if quick else 4, prop, mon, extra=dict(suffix_mask=sm)))
     # odd-sized shared buffer, and separate buffers of different sizes (smaller budget: the layouts differ only in capacities)
     sh.append(duplex("duplex-r1-oddshared", 1, 2, 2 if quick else 3, prop, mon))
-    sh.append(duplex("duplex-r2-ubuf12", 2, 0, 2 if quick else 3, prop, mon, extra=dict(ubuf=12)))
+    sh.append(duplex("duplex-r2-ubuf18", 2, 0, 2 if quick else 3, prop, mon, extra=dict(ubuf=18)))
     return sh
 
 
